@@ -182,6 +182,12 @@ class HistoryProfile(StoreProfile):
             return None
         A, G = self.alphabet(run)
         r = rng.random()
+        carry = run.scratch.get("carry") or []
+        if carry and rng.random() < 0.25:
+            # a search asked before the last store mutation, asked again: the later call reflects the change
+            a = rng.choice(carry)
+            run.probes["search_repeated_after_mutation"] += 1
+            return {"op": "call", "tag": a["tag"], "e": a["e"]}
         if r < 0.04:
             return {"op": "restart"}
         if r < 0.09:
@@ -241,8 +247,10 @@ class HistoryProfile(StoreProfile):
     def apply(self, run, step):
         op = step["op"]
         if op in ("mirror", "create", "write"):
+            asked = run.scratch.get("asked_finds") or []
             self.apply_common(run, step)
             run.scratch["disk_version"] = run.scratch.get("disk_version", 0) + 1
+            run.scratch["carry"] = asked[-6:]
             return
         if op == "restart":
             run.start_epoch()
@@ -251,6 +259,8 @@ class HistoryProfile(StoreProfile):
         if op == "call":
             obs = run.do(step["e"])
             self.compare(run, step["tag"], step["e"], obs)
+            if step["tag"] in ("find", "find_one"):
+                run.scratch.setdefault("asked_finds", []).append({"tag": step["tag"], "e": step["e"]})
         elif op == "group":
             seen = []
             for e in step["es"]:
